@@ -59,7 +59,7 @@ def plan(tier, seed):
 
 def mandatory_bins(tier):
     b = ["offset_%d" % o for o in OFFSETS] + ["offset_random", "tag_order_not_sorted", "encrypted_component", "zero_components", "eight_tags",
-         "text_stream", "text_path", "bec2", "appnote_scripts", "block_cust_opened", "block_update_opened", "block_ecc_opened", "customer_key_in_slot", "histories_under_layout_hooks", "second_export_after_in_place_mutation", "more_than_255_components", "directory_larger_than_64k", "bec2_without_auth_blocks", "encrypted_payload_over_8k", "same_component_object_listed_twice", "exports_by_concurrent_threads", "one_object_exported_by_concurrent_threads", "description_is_a_dict_subclass", "unmarked_component_carrying_the_enc_02_tag", "encrypted_component_declared_shorter_than_blob"]
+         "text_stream", "text_path", "bec2", "appnote_scripts", "block_cust_opened", "block_update_opened", "block_ecc_opened", "customer_key_in_slot", "histories_under_layout_hooks", "second_export_after_in_place_mutation", "more_than_255_components", "directory_larger_than_64k", "bec2_without_auth_blocks", "encrypted_payload_over_8k", "same_component_object_listed_twice", "exports_by_concurrent_threads", "one_object_exported_by_concurrent_threads", "description_is_a_dict_subclass", "unmarked_component_carrying_the_enc_02_tag", "encrypted_component_declared_shorter_than_blob", "text_of_a_binary_longer_than_16k"]
     b += ["blocks_" + "+".join(l) for l in GB.all_block_lists()]
     return b
 
@@ -75,6 +75,8 @@ def gen_case_c03(rng):
         blob = G.gen_payload(rng)
         if rng.random() < 0.12:
             blob = rng.randbytes(rng.choice((1024, 1025, 1040, 2048, 2049, 4100)))
+        elif case.comps and rng.random() < 0.25:
+            blob = rng.choice(case.comps).blob  # byte-identical to the content of a plain component of the same file
         desc = [(0xC3, b"\x03"), (0xC2, b"\x02"), (0xC1, b"\x03"), (0xC5, b"\x01")] if rng.random() < 0.7 else [(t, v) for t, v in G.gen_desc(rng, maxbytes=207) if t != 0xC2] + [(0xC2, b"\x02")]
         if len({t for t, _ in desc}) == len(desc):
             declared = len(blob)
@@ -266,6 +268,12 @@ def run_shard(spec, ctx):
                         big = G.Case([], [MComp([(0xC2, b"\x02"), (1, b"\x07")], rng.randbytes(ln), ln, True), MComp([(1, b"\x01")], b"tail", None, False)])
                         ctx.bin("encrypted_payload_over_8k")
                         run_bf3(ns, ctx, mon, big, key, 0, scratch, 5)
+                    # files whose binary is longer than 16 KiB / 32 KiB / 64 KiB, written as TEXT (stream and path): the hex text is
+                    # one run of 80-column lines from the first byte to the last
+                    for n_, ln in enumerate((16384 - 60, 16400, 40000) if ctx.tier == "quick" else (16384 - 60, 16384, 16400, 32768 + 7, 40000, 70000)):
+                        bigtext = G.Case([("FirmwareId", "1100")], [MComp([(1, b"\x01")], rng.randbytes(ln), None, False), MComp([(1, b"\x02")], b"tail", None, False)])
+                        ctx.bin("text_of_a_binary_longer_than_16k")
+                        run_bf3(ns, ctx, mon, bigtext, key, 0, scratch, 6 + n_ % 2 * 7)
                 if i == 1 and spec.get("many"):
                     # more than 255 components: the entry MAC IV is the full 16-byte big-endian (1+index)
                     many = G.Case([], [MComp([(1, bytes([j % 256]))], bytes([j % 251 + 1]) * (1 + j % 3), None, False) for j in range(258)])
